@@ -134,12 +134,22 @@ def quiet(fn, *a, **k):
         return fn(*a, **k)
 
 
-def run_hals_converged(p, V0, eps=0.0, exact=False, rounds=80, chunk=150):
+class _Shared:
+    """the SAME array object on every .copy(): for call sequences that reuse one (UtM, UtU) pair of array objects"""
+    def __init__(self, a):
+        self.a = a
+
+    def copy(self):
+        return self.a
+
+
+def run_hals_converged(p, V0, eps=0.0, exact=False, rounds=80, chunk=150, arrays=None):
     """hals_nnls run to convergence: the iteration is memoryless in V, so continuing from the returned V is the
-    same iteration; stop when a whole chunk moves V by < 1e-14 (relative)."""
+    same iteration; stop when a whole chunk moves V by < 1e-14 (relative).
+    arrays = (UtM, UtU): pass these very objects to every call (no copies) instead of fresh copies of p's data."""
     from tensorly.solvers.nnls import hals_nnls
     kw = dict(sparsity_coefficient=p["l1"] if p["l1"] else None, ridge_coefficient=p["l2"] if p["l2"] else None, epsilon=eps)
-    B, G = p["B"], p["G"]
+    B, G = (p["B"], p["G"]) if arrays is None else (_Shared(arrays[0]), _Shared(arrays[1]))
     if exact:
         # exact=True overrides (n_iter_max, tol) by (50000, 1e-16); the documented callback protocol caps the run
         state = {"prev": None, "it": 0}
@@ -161,9 +171,9 @@ def run_hals_converged(p, V0, eps=0.0, exact=False, rounds=80, chunk=150):
     return V
 
 
-def run_fista_converged(p, x0, eps=0.0, lr=None):
+def run_fista_converged(p, x0, eps=0.0, lr=None, arrays=None):
     from tensorly.solvers.nnls import fista
-    B, G = p["B"], p["G"]
+    B, G = (p["B"], p["G"]) if arrays is None else (_Shared(arrays[0]), _Shared(arrays[1]))
     x = None if x0 is None else x0.copy()
     for _ in range(12):
         y = fista(B.copy(), G.copy(), x=x, n_iter_max=1500, sparsity_coef=p["l1"], ridge_coef=p["l2"], lr=lr, tol=0, epsilon=eps)
@@ -240,8 +250,8 @@ def inputs_json(p, **kw):
 # ----------------------------------------------------------------------------- case generation
 def tiers(tier):
     if tier == "quick":
-        return dict(nprob=30, npass=40, nfista=24, nas=56, nadmm=10, aswarm=80, ncold=12)
-    return dict(nprob=240, npass=400, nfista=160, nas=640, nadmm=60, aswarm=1500, ncold=100)
+        return dict(nprob=30, npass=40, nfista=24, nas=56, nadmm=10, aswarm=80, ncold=12, nfista2=10, nseq=8)
+    return dict(nprob=240, npass=400, nfista=160, nas=640, nadmm=60, aswarm=1500, ncold=100, nfista2=80, nseq=80)
 
 
 def dyadic_start(rng, r, n, kind):
@@ -459,6 +469,46 @@ def run(chk):
                 if x0.max() > 0:
                     as_point(chk, p, j, x0, active_set_nnls, add_case, conv_case)
 
+    # ---------------- A''. multi-step sequences on ONE (UtM, UtU) pair of array objects (no copies between the calls): cold solve,
+    # warm restart from the result, perturbed warm start, another solver, cold solve again -- every result judged against
+    # the constructed optimum of the PRISTINE data.  A solver that writes into its inputs makes a later solve wrong.
+    for t, (r, n) in enumerate(sizes(T["nseq"])):
+        l1 = rng.choice([0.25, 1.0, 0.5, 0.0]); l2 = rng.choice([0.0, 0.125, 0.5])
+        p = gen_problem(rng, r, n, rng.random() < 0.5, l1, l2)
+        p["Xs"] = scipy_reference(p)
+        UtM_obj, UtU_obj = p["B"].copy(), p["G"].copy()
+        arrays = (UtM_obj, UtU_obj)
+        steps = [("hals cold", lambda prev: run_hals_converged(p, None, 0.0, False, arrays=arrays)),
+                 ("hals warm restart", lambda prev: run_hals_converged(p, prev.copy(), 0.0, False, arrays=arrays)),
+                 ("hals perturbed warm start", lambda prev: run_hals_converged(p, np.clip(prev + dyadic_start(rng, r, n, "infeasible") / 4, 0, None), 0.0, False, arrays=arrays)),
+                 ("fista", lambda prev: run_fista_converged(p, None if rng.random() < 0.5 else prev.copy(), 0.0, None, arrays=arrays))]
+        if l1 == 0 and l2 == 0:
+            steps.append(("active_set_nnls on every column", lambda prev: np.stack(
+                [np.asarray(active_set_nnls(UtM_obj[:, j], UtU_obj, x=None if j % 2 else prev[:, j].copy())) for j in range(n)], axis=1)))
+        steps.append(("hals cold again", lambda prev: run_hals_converged(p, None, 0.0, False, arrays=arrays)))
+        prev, hist_names = None, []
+        for name, fn in steps:
+            try:
+                st, V = impl_call(chk, fn, prev, timeout=240)
+            except Skip:
+                break
+            hist_names.append(name)
+            chk.count(key=("sequence", r, n, l1, l2, name), nontrivial=r * n > 1)
+            chk.hist("solver", "sequence/" + name.split()[0])
+            inp = inputs_json(p, sequence=list(hist_names), protocol="calls on ONE (UtM, UtU) pair of array objects, each run to convergence; judged against the pristine data")
+            ep = EP_FISTA if name == "fista" else (EP_AS if name.startswith("active") else EP_HALS)
+            if st != "ok":
+                chk.finding(ep, inp, f"step '{name}' of the sequence raised: {V}", "C13_sequence_returns")
+                break
+            msg = check_point(p, V, 0.0, f"step '{name}' after {hist_names[:-1]}")
+            if msg:
+                changed = [nm for nm, a, b in (("UtM", UtM_obj, p["B"]), ("UtU", UtU_obj, p["G"])) if not np.array_equal(a, b)]
+                if changed:
+                    msg += f" [the caller's {' and '.join(changed)} no longer equal the data passed to the first call: an earlier call wrote into its input]"
+                chk.finding(ep, inp, msg, "C13_kkt_optimal_sequence", observed=np.asarray(V))
+                break
+            prev = np.asarray(V, dtype=float)
+
     # ---------------- A'. active set on random warm-started problems (the input class of the former rounding defect)
     for t in range(T["aswarm"]):
         r = rng.randint(2, 8)
@@ -483,10 +533,12 @@ def run(chk):
         kind = rng.choice(["dense", "sparse", "zero", "infeasible", "cold", "cold"])
         # cold starts: problems of different magnitude (the rescaling denominator sum(UtU * V V^T) above and below 1)
         scale = rng.choice([1.0, 2.0 ** -6, 2.0 ** -9]) if kind == "cold" else 1.0
-        p = gen_problem(rng, r, n, signed, l1 or 0.0, l2 or 0.0, style=rng.choice([None, None, "all_active"]), scale=scale)
+        nz = rng.random() < 0.25
+        # nonzero_rows: make the safety procedure fire (rows clipped to zero while other rows are positive)
+        style_b = rng.choice(["all_active", "zero_degenerate", "mixed"]) if nz else rng.choice([None, None, "all_active"])
+        p = gen_problem(rng, r, n, signed, l1 or 0.0, l2 or 0.0, style=style_b, scale=scale)
         G, B = p["G"].copy(), p["B"]
-        eps = rng.choice([0.0, 0.0, 0.0, 2.0 ** -10, 0.5])
-        nz = rng.random() < 0.2
+        eps = rng.choice([0.0, 0.0, 0.0, 2.0 ** -10, 0.5]) if not nz or rng.random() < 0.3 else 0.0
         if nz and rng.random() < 0.3 and r > 1 and kind != "cold":
             k0 = rng.randrange(r); G[k0, :] = 0; G[:, k0] = 0        # "Column k of U is zero": must raise
         elif kind != "cold" and rng.random() < 0.1 and r > 1:
@@ -520,7 +572,24 @@ def run(chk):
                     chk.finding(EP_HALS, inputs_json(p, V0=None, n_iter_max=0), f"hals_nnls cold start is not a finite matrix: {impl0}", "C13_hals_returns",
                                 observed=impl0 if st0 == "ok" else None)
                     continue
-            st, V = impl_call(chk, lambda: quiet(hals_nnls, B.copy(), G.copy(), V=None if V0 is None else V0.copy(), n_iter_max=iters, tol=tol, **kw))
+            # how the run is limited to `iters` passes: by n_iter_max; by the documented callback answering True at pass `iters`
+            # (larger budget, tol = 0); or exact=True (n_iter_max and tol replaced by 50000 and 1e-16) cut by the callback
+            mode = rng.choice(["n_iter_max", "n_iter_max", "callback", "exact"])
+            if mode == "n_iter_max":
+                st, V = impl_call(chk, lambda: quiet(hals_nnls, B.copy(), G.copy(), V=None if V0 is None else V0.copy(), n_iter_max=iters, tol=tol, **kw))
+            else:
+                cnt = [0]
+
+                def cb(V_, e_):
+                    cnt[0] += 1
+                    return True if cnt[0] >= iters else None
+                if mode == "callback":
+                    tol = 0.0
+                    st, V = impl_call(chk, lambda: quiet(hals_nnls, B.copy(), G.copy(), V=None if V0 is None else V0.copy(), n_iter_max=iters + 3, tol=0.0, callback=cb, **kw))
+                else:
+                    tol = 1e-16
+                    st, V = impl_call(chk, lambda: quiet(hals_nnls, B.copy(), G.copy(), V=None if V0 is None else V0.copy(), n_iter_max=1, tol=0.5, exact=True, callback=cb, **kw))
+            chk.hist("hals_pass_limit", mode)
         except Skip:
             continue
         if st == "ok":
@@ -617,6 +686,80 @@ def run(chk):
         if nonneg and float(np.min(V)) < eps:
             chk.finding(EP_FISTA, inputs_json(p, x0=x0, lr=lr_arg, epsilon=eps, n_iter_max=K), f"iterate below epsilon: {float(np.min(V))}",
                         "C13_fista_iterates_ge_eps", observed=V)
+
+    # ---------------- C'. fista with a LIST [A, B] as UtU (the multi_mode_dot branch; core update of non_negative_tucker_hals):
+    # unknown r1 x r2, gradient A x B^T - UtM + l1 + 2 l2 x; problems constructed from a KKT pair of the Kronecker problem
+    for t in range(T["nfista2"]):
+        r1, r2 = rng.randint(1, 4), rng.randint(1, 4)
+        _, A = gen_design(rng, r1, rng.random() < 0.5); _, Bm = gen_design(rng, r2, rng.random() < 0.5)
+        l1 = rng.choice(L1); l2 = rng.choice([0.0, 0.0, 0.125])
+        symmetric = t % 2 == 0          # odd cases: non-symmetric matrices (multi_mode_dot must not transpose them); iterations only
+        if not symmetric:
+            A = A + np.triu(np.ones((r1, r1)), 1) / 8; Bm = Bm - np.tril(np.ones((r2, r2)), -1) / 4
+        X = np.zeros((r1, r2)); MU = np.zeros((r1, r2))
+        for i in range(r1):
+            for j in range(r2):
+                if rng.random() < 0.5:
+                    X[i, j] = rng.randint(1, 32) / 8
+                else:
+                    MU[i, j] = rng.randint(0, 32) / 8
+        UtM2 = A @ X @ Bm.T - MU + l1 + 2 * l2 * X
+        Lc = float(np.linalg.norm(A, 2) * np.linalg.norm(Bm, 2) + 2 * l2)
+        lr = float(Fr(1) / Fr(Lc)) if rng.random() < 0.7 else 2.0 ** -7
+        K = rng.choice([1, 2, 3, 4, 4]); nonneg = rng.random() < 0.85
+        eps = rng.choice([0.0, 1e-8, 0.25]); tol = rng.choice([0.0, 0.0, 0.5, 0.125])
+        x0 = None if rng.random() < 0.4 else dyadic_start(rng, r1, r2, rng.choice(["dense", "sparse", "infeasible"]))
+        fkw2 = dict(non_negative=nonneg, sparsity_coef=l1, ridge_coef=l2, lr=lr, epsilon=eps)
+        inp2 = {"UtM": UtM2, "UtU": [A, Bm], "l1": l1, "l2": l2, "x0": x0, "lr": lr, "epsilon": eps, "n_iter_max": K, "list_UtU": True}
+        try:
+            st, V = impl_call(chk, lambda: fista(UtM2.copy(), [A.copy(), Bm.copy()], x=None if x0 is None else x0.copy(), n_iter_max=K, tol=tol, **fkw2))
+        except Skip:
+            continue
+        if st != "ok" or not finite(V):
+            chk.finding(EP_FISTA, inp2, f"fista (list UtU) failed: {V}", "C13_fista_returns")
+            continue
+        x0m = np.zeros((r1, r2)) if x0 is None else x0
+        betas = fista_betas(K)
+        add_case(lambda cid: (f"(CFista2 {cid}%nat {mat_lit(UtM2)} {mat_lit(A)} {mat_lit(Bm)} {r2}%nat {C.boolc(nonneg)} {C.q(l1)} {C.q(l2)} {C.q(lr)} "
+                              f"{C.q(tol)} {C.q(eps)} {mat_lit(x0m)} {C.q_list(betas)} {mat_lit(V)})"),
+                 ("iter-fista-list", r1, r2, K, nonneg, eps))
+        chk.count(key=("fista-list-iter", r1, r2, K, nonneg, eps, x0 is None), nontrivial=r1 * r2 > 1)
+        chk.hist("solver", "fista/list-UtU")
+        if nonneg and float(np.min(V)) < eps:
+            chk.finding(EP_FISTA, inp2, f"iterate below epsilon: {float(np.min(V))}", "C13_fista_iterates_ge_eps", observed=V)
+        # run to convergence (restarted, tol = 0) and test KKT / objective of the Kronecker problem against the constructed optimum
+        if symmetric:
+            def conv2():
+                x = None
+                for _ in range(12):
+                    y = fista(UtM2.copy(), [A.copy(), Bm.copy()], x=x, n_iter_max=1500, sparsity_coef=l1, ridge_coef=l2, lr=float(Fr(1) / Fr(Lc)), tol=0, epsilon=0.0)
+                    if not finite(y):
+                        return y
+                    done = x is not None and np.max(np.abs(y - x)) <= 1e-14 * (1 + np.max(np.abs(y)))
+                    x = y.copy()
+                    if done:
+                        break
+                return x
+            try:
+                st, Vc = impl_call(chk, conv2, timeout=180)
+            except Skip:
+                continue
+            if st != "ok" or not finite(Vc):
+                chk.finding(EP_FISTA, inp2, f"fista (list UtU) failed: {Vc}", "C13_fista_returns")
+                continue
+            g = A @ Vc @ Bm.T - UtM2 + l1 + 2 * l2 * Vc
+            scale = 1 + float(np.max(np.abs(UtM2))) + float(np.max(np.abs(Vc)))
+            f = lambda Z: float(0.5 * np.sum(Z * (A @ Z @ Bm.T)) - np.sum(UtM2 * Z) + l1 * np.sum(Z) + l2 * np.sum(Z * Z))
+            msg = None
+            if float(np.min(Vc)) < 0:
+                msg = f"fista(list UtU): negative entry {float(np.min(Vc))}"
+            elif float(np.min(g)) < -1e-6 * scale or float(np.max(np.abs(Vc * g))) > 1e-6 * scale * scale:
+                msg = f"fista(list UtU): KKT violated: min gradient {float(np.min(g)):.3g}, complementarity {float(np.max(np.abs(Vc * g))):.3g}"
+            elif abs(f(Vc) - f(X)) > 1e-6 * (1 + abs(f(X))):
+                msg = f"fista(list UtU): objective {f(Vc)!r} differs from the constructed optimum {f(X)!r}"
+            chk.count(key=("fista-list-conv", r1, r2, l1, l2), nontrivial=r1 * r2 > 1)
+            if msg:
+                chk.finding(EP_FISTA, dict(inp2, protocol="run to convergence (restarted, tol=0)", x0=None, epsilon=0.0), msg, "C13_kkt_optimal", observed=Vc)
 
     # ---------------- D. active set: model (exact elimination, exact step) vs implementation
     as_inputs = [(p, x0, 100) for p, x0 in as_corpus]
@@ -740,6 +883,42 @@ def replay(payload):
         st, out = C.call_impl(lambda: admm(UtM.copy(), G.copy(), x.copy(), dual.copy(), n_const=None))
         bad = st != "ok" or not np.allclose(out[0], np.linalg.solve(G.T, UtM.T).T, rtol=1e-9, atol=1e-12) or not np.array_equal(out[2], dual)
         print("replay admm:", "fails" if bad else "holds")
+        return 1 if bad else 0
+    if inp.get("sequence"):
+        G, B = arr(inp["UtU"]), arr(inp["UtM"]); l1, l2 = float(inp.get("l1", 0.0)), float(inp.get("l2", 0.0))
+        r, n = B.shape
+        p = dict(U=np.linalg.cholesky(G).T, G=G, B=B, l1=l1, l2=l2, r=r, n=n, MU=np.zeros((r, n)))
+        p["Xs"] = scipy_reference(p); p["X"] = p["Xs"]
+        UtM_obj, UtU_obj = B.copy(), G.copy(); arrays = (UtM_obj, UtU_obj)
+        prev, msg = None, None
+        for name in inp["sequence"]:
+            if name.startswith("hals"):
+                V0 = None if "cold" in name else (prev.copy() if "restart" in name else np.clip(prev + 0.125, 0, None))
+                st, V = C.call_impl(run_hals_converged, p, V0, 0.0, False, arrays=arrays, timeout=240)
+            elif name == "fista":
+                st, V = C.call_impl(run_fista_converged, p, None, 0.0, None, arrays=arrays, timeout=240)
+            else:
+                st, V = C.call_impl(lambda: np.stack([np.asarray(active_set_nnls(UtM_obj[:, j], UtU_obj)) for j in range(n)], axis=1), timeout=240)
+            msg = f"raised {V}" if st != "ok" else check_point(p, V, 0.0, name)
+            if msg:
+                break
+            prev = np.asarray(V, dtype=float)
+        print("replay: sequence", inp["sequence"], "->", msg or "holds")
+        return 1 if msg else 0
+    if inp.get("list_UtU"):
+        A, Bm = [arr(v) for v in inp["UtU"]]
+        UtM2 = arr(inp["UtM"]); l1, l2 = float(inp.get("l1", 0.0)), float(inp.get("l2", 0.0))
+        Lc = float(np.linalg.norm(A, 2) * np.linalg.norm(Bm, 2) + 2 * l2)
+        x = None
+        for _ in range(12):
+            st, y = C.call_impl(lambda: fista(UtM2.copy(), [A.copy(), Bm.copy()], x=x, n_iter_max=1500, sparsity_coef=l1, ridge_coef=l2, lr=1.0 / Lc, tol=0, epsilon=0.0), timeout=120)
+            if st != "ok" or not finite(y):
+                print("replay: fista(list UtU) failed", y); return 1
+            x = np.array(y, copy=True)
+        g = A @ x @ Bm.T - UtM2 + l1 + 2 * l2 * x
+        scale = 1 + float(np.max(np.abs(UtM2))) + float(np.max(np.abs(x)))
+        bad = float(np.min(x)) < 0 or float(np.min(g)) < -1e-6 * scale or float(np.max(np.abs(x * g))) > 1e-6 * scale * scale
+        print("replay: fista(list UtU) ->", "KKT violated" if bad else "holds")
         return 1 if bad else 0
     G = arr(inp["UtU"])
     if ep == EP_AS:
